@@ -55,6 +55,9 @@ def step (st : State) (line : String) : State × String :=
   | "HFV" :: args => handleHfLine st "HFV" args
   | "HFM" :: args => handleHfLine st "HFM" args
   | "CONVHF" :: args => (st, handleConvHf st args)
+  | "SPT" :: args => handleSpLine st "SPT" args
+  | "SPP" :: args => handleSpLine st "SPP" args
+  | "CONVSP" :: args => (st, handleConvSp st args)
   | "BYTEPIECE" :: args => (st, handleBytePiece args)
   | "BPE" :: args => (st, handlePiece st args impl)
   | "UNI" :: args => (st, handlePiece st args impl)
